@@ -37,9 +37,16 @@ func (p *Publisher) Publish(topic string, messages ...*message.Message) error {
 	p.mu.Lock()
 	defer p.mu.Unlock()
 	for _, m := range messages {
-		p.Msgs = append(p.Msgs, Published{Topic: topic, Payload: append(json.RawMessage{}, m.Payload...), Persisted: p.Store.Len(), Live: m})
+		p.Msgs = append(p.Msgs, Published{Topic: topic, Payload: append(json.RawMessage{}, m.Payload...), Persisted: p.persisted(), Live: m})
 	}
 	return nil
+}
+
+func (p *Publisher) persisted() int {
+	if p.Store == nil {
+		return 0
+	}
+	return p.Store.Len()
 }
 
 func (p *Publisher) Close() error { return nil }
@@ -51,7 +58,9 @@ func (p *Publisher) Snapshot() []Published {
 }
 
 type Engine struct {
-	Store *memstore.Store
+	// CStore: what the Commander runs on (the memstore below, or any other implementation of its store contract)
+	CStore command.Store
+	Store  *memstore.Store
 	Pub   *Publisher
 	Cmd   *command.Commander
 	ctx   context.Context
@@ -74,7 +83,20 @@ func StartWithCompiler(store *memstore.Store, pub *Publisher, compiler *command.
 	if pub == nil {
 		pub = &Publisher{Store: store}
 	}
-	e := &Engine{Store: store, Pub: pub, ctx: quietCtx()}
+	e := StartOn(store, pub, compiler)
+	e.Store = store
+	return e
+}
+
+// StartOn: a Commander on any implementation of the store contract (the real ledgerstore over an interpreter, say).
+func StartOn(store command.Store, pub *Publisher, compiler *command.Compiler) *Engine {
+	if pub == nil {
+		pub = &Publisher{}
+	}
+	if compiler == nil {
+		compiler = command.NewCompiler(64)
+	}
+	e := &Engine{CStore: store, Pub: pub, ctx: quietCtx()}
 	e.Cmd = command.New(store, command.NewDefaultLocker(), compiler, command.NewReferencer(), bus.NewLedgerMonitor(pub, "l1"))
 	if err := e.Cmd.Init(e.ctx); err != nil {
 		panic(err)
@@ -91,5 +113,8 @@ func (e *Engine) Stop() { e.Cmd.Close() }
 // Restart: stop, then a new Commander initialised from what the store holds.
 func (e *Engine) Restart() *Engine {
 	e.Stop()
+	if e.Store == nil {
+		return StartOn(e.CStore, e.Pub, nil)
+	}
 	return Start(e.Store, e.Pub)
 }
